@@ -44,6 +44,17 @@ _KNOWN = None
 DEBUG = os.environ.get("SA_DEBUG_NORMALIZE") == "1"
 
 
+_KNOWN_IMPORTS = None
+
+
+def _known_imports() -> dict:
+    global _KNOWN_IMPORTS
+    if _KNOWN_IMPORTS is None:
+        p = os.path.join(os.path.dirname(os.path.abspath(__file__)), "known_imports.json")
+        _KNOWN_IMPORTS = json.load(open(p)) if os.path.exists(p) else {}
+    return _KNOWN_IMPORTS
+
+
 def known_funcs() -> set:
     global _KNOWN
     if _KNOWN is None:
@@ -218,6 +229,9 @@ def _is_literal(v) -> bool:
         return True
     if isinstance(v, (ast.Tuple, ast.List)) and v.elts and all(_is_literal(e) for e in v.elts):
         return True
+    # a member of an enumeration / constants class: `EventKind.DELETE`
+    if isinstance(v, ast.Attribute) and isinstance(v.value, ast.Name) and v.value.id[:1].isupper() and not v.value.id.isupper() and v.attr.isupper():
+        return True
     return False
 
 
@@ -307,6 +321,22 @@ def propagate_class_constants(tree: ast.Module) -> int:
         for sub in cd.body:
             if isinstance(sub, FuncT):
                 T().visit(sub)
+
+        # a constants namespace class: `Class.NAME` anywhere else in the module
+        cname = cd.name
+
+        class T2(ast.NodeTransformer):
+            def visit_Attribute(self, node):
+                nonlocal n_rep
+                self.generic_visit(node)
+                if isinstance(node.ctx, ast.Load) and node.attr in consts and isinstance(node.value, ast.Name) and node.value.id == cname:
+                    n_rep += 1
+                    return ast.copy_location(copy.deepcopy(consts[node.attr]), node)
+                return node
+
+        for i, st in enumerate(tree.body):
+            if st is not cd:
+                tree.body[i] = T2().visit(st)
     return n_rep
 
 
@@ -1054,7 +1084,23 @@ class ProgramNormalizer:
                         base = ".".join(anchor + ([node.module] if node.module else []))
                     for a in node.names:
                         imp[a.asname or a.name] = f"{base}.{a.name}" if base else a.name
+            # module-level aliases of imported things (`_is_lower_hex = util.is_lower_hex`) resolve like imports
+            for st in tree.body:
+                if isinstance(st, ast.Assign) and len(st.targets) == 1 and isinstance(st.targets[0], ast.Name) and st.targets[0].id not in fs and st.targets[0].id not in cs:
+                    v = st.value
+                    if isinstance(v, ast.Attribute) and isinstance(v.value, ast.Name) and v.value.id in imp and v.value.id not in fs:
+                        imp.setdefault(st.targets[0].id, f"{imp[v.value.id]}.{v.attr}")
+                    elif isinstance(v, ast.Name) and v.id in imp and v.id != st.targets[0].id:
+                        imp.setdefault(st.targets[0].id, imp[v.id])
             self.imports[mod] = imp
+        # a known function that now lives elsewhere under another name and is imported/aliased back under its audited name
+        self._aliased_known = set()
+        for mod, imp in self.imports.items():
+            for local, tgt in imp.items():
+                if f"{mod}:{local}" in self.known and local not in self.funcs.get(mod, {}):
+                    m2, _, sym = tgt.rpartition(".")
+                    if m2 in self.trees and sym in self.funcs.get(m2, {}):
+                        self._aliased_known.add((m2, sym))
 
     def resolve(self, mod, name, depth=0):
         """name visible in module `mod` -> ('func', mod2, def) | ('class', mod2, ClassDef) | ('module', mod2) | None"""
@@ -1096,6 +1142,8 @@ class ProgramNormalizer:
         if f"{mod}:{qual}" in self.known:
             return False
         if self._moved_known(qual):
+            return False
+        if (mod, qual) in getattr(self, "_aliased_known", ()):
             return False
         for d in fn.decorator_list:
             if not (isinstance(d, ast.Name) and d.id in ("staticmethod", "classmethod")):
@@ -2126,6 +2174,571 @@ class ProgramNormalizer:
                 ast.fix_missing_locations(tree)
         return n
 
+    def closures_from_callable_classes(self):
+        """a class the audited tree does not have, with `__init__` + `__call__` (+ private methods) and no bases, that is instantiated inside a function
+        is the object spelling of a closure: at the instantiation the constructor's body runs with `self.x` as locals of the enclosing function, every
+        method becomes a nested function over those locals, and the instance is its `__call__`.  `x = C(…)` becomes `def x(…)`; the class is left in place
+        (dropped later as an orphan)."""
+        kc = self.known_classes()
+        n = 0
+        uid = [0]
+        for mod, tree in list(self.trees.items()):
+            for fn in [f for f in ast.walk(tree) if isinstance(f, FuncT)]:
+                for call in [c for c in _own_walk(fn) if isinstance(c, ast.Call)]:
+                    f = call.func
+                    r = None
+                    if isinstance(f, ast.Name):
+                        r = self.resolve(mod, f.id)
+                    elif isinstance(f, ast.Attribute) and isinstance(f.value, ast.Name):
+                        rm = self.resolve(mod, f.value.id)
+                        if rm and rm[0] == "module":
+                            r = self.resolve(rm[1], f.attr)
+                    if not r or r[0] != "class":
+                        continue
+                    cmod, cd = r[1], r[2]
+                    if f"{cmod}:{cd.name}" in kc or cd.decorator_list or cd.keywords or any(not (isinstance(b, ast.Name) and b.id == "object") for b in cd.bases):
+                        continue
+                    methods = {m.name: m for m in cd.body if isinstance(m, FuncT)}
+                    if "__call__" not in methods or any(isinstance(x, ast.ClassDef) for x in cd.body):
+                        continue
+                    if any(m.decorator_list for m in methods.values()) or any(k.startswith("__") and k not in ("__init__", "__call__") for k in methods):
+                        continue
+                    if any(isinstance(a, ast.Starred) for a in call.args) or any(k.arg is None for k in call.keywords):
+                        continue
+                    # `self` only as `self.<name>`
+                    okself = True
+                    attrs_read, attrs_set = set(), set()
+                    for m in methods.values():
+                        if not m.args.args or m.args.args[0].arg != "self" or m.args.vararg or m.args.kwarg:
+                            okself = False
+                            break
+                        for x in ast.walk(m):
+                            if isinstance(x, ast.Name) and x.id == "self":
+                                par = _parent_in(m, x)
+                                if not (isinstance(par, ast.Attribute) and par.value is x):
+                                    okself = False
+                                elif isinstance(par.ctx, ast.Store):
+                                    attrs_set.add(par.attr)
+                                else:
+                                    attrs_read.add(par.attr)
+                    class_consts = {t.id: st.value for st in cd.body if isinstance(st, ast.Assign) for t in st.targets if isinstance(t, ast.Name) and t.id != "__slots__"}
+                    if not okself or (attrs_read - attrs_set - set(methods) - set(class_consts)):
+                        continue
+                    init = methods.get("__init__")
+                    # bind the constructor's parameters
+                    bind = {}
+                    if init is not None:
+                        params = [a.arg for a in init.args.args[1:]]
+                        defaults = dict(zip(params[len(params) - len(init.args.defaults):], init.args.defaults))
+                        if len(call.args) > len(params) or init.args.kwonlyargs:
+                            continue
+                        for p_, a_ in zip(params, call.args):
+                            bind[p_] = a_
+                        bad = False
+                        for k in call.keywords:
+                            if k.arg not in params or k.arg in bind:
+                                bad = True
+                            bind[k.arg] = k.value
+                        for p_ in params:
+                            if p_ not in bind:
+                                if p_ in defaults:
+                                    bind[p_] = defaults[p_]
+                                else:
+                                    bad = True
+                        if bad:
+                            continue
+                    elif call.args or call.keywords:
+                        continue
+                    # the statement of fn that holds the instantiation; everything it evaluates before must be plain
+                    holder = None
+                    for par in [fn] + [x for x in _own_walk(fn)]:
+                        for field in ("body", "orelse", "finalbody"):
+                            lst = getattr(par, field, None)
+                            if isinstance(lst, list):
+                                for i, st in enumerate(lst):
+                                    if isinstance(st, ast.stmt) and not isinstance(st, FuncT + (ast.ClassDef,)) and any(x is call for x in ast.walk(st)) \
+                                            and not any(any(x is call for x in ast.walk(sub)) for f2 in ("body", "orelse", "finalbody") for sub in (getattr(st, f2, None) or []) if isinstance(sub, ast.stmt)) \
+                                            and not (isinstance(st, ast.Try) and any(any(x is call for x in ast.walk(h)) for h in st.handlers)):
+                                        holder = (lst, i, st)
+                    if holder is None:
+                        continue
+                    lst, i, st = holder
+                    host = st.test if isinstance(st, (ast.If, ast.While)) else getattr(st, "value", None)
+                    if host is None or isinstance(st, ast.While):
+                        continue
+                    order = _first_evaluated(host)
+                    if call not in order:
+                        continue
+                    inside = {id(x) for x in ast.walk(call)}
+
+                    def plain(e):
+                        return isinstance(e, (ast.Name, ast.Constant)) or (isinstance(e, ast.Attribute) and plain(e.value))
+
+                    if not all(id(e) in inside or plain(e) for e in order[: order.index(call)]):
+                        continue
+                    uid[0] += 1
+                    tag = f"__c{uid[0]}"
+                    taken = {x.id for x in ast.walk(fn) if isinstance(x, ast.Name)} | {a.arg for a in ast.walk(fn) if isinstance(a, ast.arg)}
+                    names = {}
+
+                    def local_for(attr, prefer_free=False):
+                        if attr not in names:
+                            names[attr] = attr if (attr not in taken or prefer_free) else attr + tag
+                        return names[attr]
+
+                    # parameters: reuse the caller's variable when the argument is that very name
+                    pre = []
+                    pmap = {}
+                    for p_, a_ in bind.items():
+                        if isinstance(a_, ast.Name):
+                            pmap[p_] = a_.id
+                        else:
+                            nm = p_ if p_ not in taken else p_ + tag
+                            taken.add(nm)
+                            pmap[p_] = nm
+                            pre.append(ast.Assign(targets=[ast.Name(id=nm, ctx=ast.Store())], value=copy.deepcopy(a_), type_comment=None))
+                    # attribute -> local: `self.a = a` keeps the caller's variable
+                    if init is not None:
+                        for s_ in _body_wo_doc(init):
+                            if isinstance(s_, ast.Assign) and len(s_.targets) == 1 and isinstance(s_.targets[0], ast.Attribute) and isinstance(s_.targets[0].value, ast.Name) \
+                                    and s_.targets[0].value.id == "self" and isinstance(s_.value, ast.Name) and s_.value.id in pmap and s_.targets[0].attr not in names:
+                                names[s_.targets[0].attr] = pmap[s_.value.id]
+                    mnames = {}
+                    target_name = st.targets[0].id if isinstance(st, ast.Assign) and st.value is call and len(st.targets) == 1 and isinstance(st.targets[0], ast.Name) else None
+                    for mn in methods:
+                        if mn == "__init__":
+                            continue
+                        if mn == "__call__":
+                            mnames[mn] = target_name or ("call" + tag)
+                        else:
+                            mnames[mn] = mn if mn not in taken else mn + tag
+
+                    class R(ast.NodeTransformer):
+                        def __init__(self, rename_params):
+                            self.rp = rename_params
+
+                        def visit_Attribute(self, node):
+                            self.generic_visit(node)
+                            if isinstance(node.value, ast.Name) and node.value.id == "self":
+                                if node.attr in mnames and node.attr not in attrs_set:
+                                    return ast.copy_location(ast.Name(id=mnames[node.attr], ctx=ast.Load()), node)
+                                if node.attr in class_consts and node.attr not in attrs_set:
+                                    return ast.copy_location(copy.deepcopy(class_consts[node.attr]), node)
+                                return ast.copy_location(ast.Name(id=local_for(node.attr), ctx=node.ctx), node)
+                            return node
+
+                        def visit_Name(self, node):
+                            if node.id in self.rp:
+                                return ast.copy_location(ast.Name(id=self.rp[node.id], ctx=node.ctx), node)
+                            return node
+
+                    body_init = []
+                    if init is not None:
+                        for s_ in _body_wo_doc(init):
+                            s2 = R(pmap).visit(copy.deepcopy(s_))
+                            if isinstance(s2, ast.Assign) and len(s2.targets) == 1 and isinstance(s2.targets[0], ast.Name) and isinstance(s2.value, ast.Name) and s2.targets[0].id == s2.value.id:
+                                continue
+                            if isinstance(s2, ast.Expr) and isinstance(s2.value, ast.Constant):
+                                continue
+                            body_init.append(s2)
+                    defs = []
+                    for mn, m in methods.items():
+                        if mn == "__init__":
+                            continue
+                        m2 = copy.deepcopy(m)
+                        m2.name = mnames[mn]
+                        m2.args.args = m2.args.args[1:]
+                        m2 = R({}).visit(m2)
+                        stored = sorted({x.id for x in ast.walk(m2) if isinstance(x, ast.Name) and isinstance(x.ctx, ast.Store) and x.id in set(names.values())})
+                        if stored:
+                            m2.body.insert(0, ast.Nonlocal(names=stored))
+                        defs.append(m2)
+                    # order: helper methods first, __call__ last
+                    defs.sort(key=lambda d: d.name == mnames["__call__"])
+                    new = pre + body_init + defs
+                    if target_name is not None:
+                        lst[i:i + 1] = new
+                    else:
+                        _replace_node(st, call, ast.copy_location(ast.Name(id=mnames["__call__"], ctx=ast.Load()), call))
+                        lst[i:i] = new
+                    for x in new:
+                        ast.copy_location(x, st)
+                        ast.fix_missing_locations(x)
+                    n += 1
+                    self.stats.setdefault(mod, {}).setdefault("callable_classes_closed", 0)
+                    self.stats[mod]["callable_classes_closed"] += 1
+        if n:
+            self._index()
+        return n
+
+    def flatten_new_bases(self):
+        """a base class that the audited tree does not have (an extracted mixin / abstract base) is folded back into the classes that
+        inherit from it: its methods and class-level assignments are copied into the subclass unless the subclass - or a base listed
+        before it - already defines the name, and the new class is dropped from the base list.  Method resolution for the subclass is
+        unchanged by construction; `super()` inside the copied methods now starts one step later, which is where the mixin's own
+        `super()` pointed when it sat first in the list."""
+        kc = self.known_classes()
+        n = 0
+        folded_classes = {}
+        for _ in range(3):
+            changed = False
+            for mod, tree in self.trees.items():
+                for cd in [c for c in tree.body if isinstance(c, ast.ClassDef)]:
+                    for bi, b in enumerate(list(cd.bases)):
+                        r = None
+                        if isinstance(b, ast.Name):
+                            r = self.resolve(mod, b.id)
+                        elif isinstance(b, ast.Attribute) and isinstance(b.value, ast.Name):
+                            rm = self.resolve(mod, b.value.id)
+                            if rm and rm[0] == "module":
+                                r = self.resolve(rm[1], b.attr)
+                        if not r or r[0] != "class":
+                            continue
+                        bmod, bcd = r[1], r[2]
+                        if f"{bmod}:{bcd.name}" in kc or bcd.decorator_list or bcd.keywords or bcd is cd:
+                            continue
+                        # the new base's own bases take its place in the list (C(B), B(T) -> C(T) with B's members: same linearisation for C)
+                        inherited = [copy.deepcopy(x) for x in bcd.bases if not (isinstance(x, ast.Name) and x.id == "object")]
+                        if inherited and bmod != mod:
+                            continue  # the base names would have to be re-resolved in another module
+                        own = {s_.name for s_ in cd.body if isinstance(s_, FuncT + (ast.ClassDef,))} | \
+                              {t.id for s_ in cd.body if isinstance(s_, ast.Assign) for t in s_.targets if isinstance(t, ast.Name)} | \
+                              {s_.target.id for s_ in cd.body if isinstance(s_, ast.AnnAssign) and isinstance(s_.target, ast.Name)}
+                        earlier = cd.bases[:bi]
+
+                        def earlier_defines(name):
+                            for e in earlier:
+                                re_ = self.resolve(mod, e.id) if isinstance(e, ast.Name) else None
+                                if re_ and re_[0] == "class" and (self.class_method(re_[1], re_[2], name) or self.class_attr(re_[1], re_[2], name) is not None):
+                                    return True
+                                if re_ is None or re_[0] != "class":
+                                    return True  # unknown base listed first: be conservative
+                            return False
+
+                        add = []
+                        for st in bcd.body:
+                            names = []
+                            if isinstance(st, FuncT):
+                                names = [st.name]
+                            elif isinstance(st, ast.Assign):
+                                names = [t.id for t in st.targets if isinstance(t, ast.Name)]
+                            elif isinstance(st, ast.AnnAssign) and isinstance(st.target, ast.Name):
+                                if st.value is None:
+                                    continue
+                                names = [st.target.id]
+                            else:
+                                continue
+                            if "__slots__" in names:
+                                continue
+                            if any(nm in own or earlier_defines(nm) for nm in names):
+                                continue
+                            add.append(copy.deepcopy(st))
+                        cd.body.extend(add)
+                        folded_classes[id(bcd)] = True
+                        pos = cd.bases.index(b)
+                        cd.bases[pos:pos + 1] = [x for x in inherited if ast.dump(x) not in {ast.dump(y) for y in cd.bases}]
+                        n += 1
+                        changed = True
+                        self.stats.setdefault(mod, {}).setdefault("new_bases_folded", 0)
+                        self.stats[mod]["new_bases_folded"] += 1
+            if changed:
+                # a folded class that nothing refers to any more is gone (its members live on in the subclasses)
+                for mod, tree in self.trees.items():
+                    for cd in [c for c in tree.body if isinstance(c, ast.ClassDef) and f"{mod}:{c.name}" not in kc]:
+                        used = False
+                        for m2, t2 in self.trees.items():
+                            for x in ast.walk(t2):
+                                if (isinstance(x, ast.Name) and x.id == cd.name and isinstance(x.ctx, ast.Load)) or (isinstance(x, ast.Attribute) and x.attr == cd.name) \
+                                        or (isinstance(x, ast.alias) and x.name == cd.name):
+                                    if not any(x is y for y in ast.walk(cd)):
+                                        used = True
+                                        break
+                            if used:
+                                break
+                        if not used and folded_classes.get(id(cd)):
+                            tree.body.remove(cd)
+            if not changed:
+                break
+            # refresh the per-module tables
+            for mod, tree in self.trees.items():
+                self.classes[mod] = {c.name: c for c in tree.body if isinstance(c, ast.ClassDef)} | {k: v for k, v in self.classes.get(mod, {}).items() if v not in tree.body}
+        return n
+
+    def rename_imports_back(self, focus=None):
+        """import style is not behaviour: where the audited module said `from time import time` and the module now says `import time as _t`
+        (or the reverse), spell the uses the audited way (`_t.time` -> `time`, `wait` -> `asyncio.wait`).  known_imports.json is the audited
+        import table per module; only names that are not otherwise bound in the module are touched."""
+        try:
+            known = _known_imports()
+        except Exception:
+            return 0
+        n = 0
+        for mod, tree in self.trees.items():
+            if focus is not None and mod not in focus:
+                continue
+            want = known.get(mod)
+            cur = self.imports.get(mod, {})
+            if not want:
+                continue
+            bound = set(self.funcs.get(mod, {})) | set(self.classes.get(mod, {}))
+            for st in tree.body:
+                if isinstance(st, ast.Assign):
+                    bound |= {t.id for t in st.targets if isinstance(t, ast.Name)}
+            attr_to_name = {}   # (alias, attr) -> audited local name          `_t.time` -> `time`
+            name_to_attr = {}   # current local name -> (audited module alias, attr)   `wait` -> `asyncio.wait`
+            for loc, tgt in want.items():
+                if cur.get(loc) == tgt:
+                    continue
+                base, _, last = tgt.rpartition(".")
+                if base and loc not in bound and (loc not in cur or cur.get(loc) == base):
+                    for a, t in cur.items():
+                        if t == base:
+                            attr_to_name[(a, last)] = loc
+                if loc not in bound and (loc not in cur):
+                    # audited: `import asyncio` (loc -> module); now: `from asyncio import wait`
+                    for a, t in cur.items():
+                        b2, _, l2 = t.rpartition(".")
+                        if b2 == tgt and a == l2 and a not in want and a not in bound:
+                            name_to_attr[a] = (loc, l2)
+            if not attr_to_name and not name_to_attr:
+                continue
+
+            class T(ast.NodeTransformer):
+                def __init__(self):
+                    self.shadow = [set()]
+
+                def _fn(self, node):
+                    local = {a.arg for a in node.args.args + node.args.kwonlyargs + node.args.posonlyargs}
+                    if node.args.vararg:
+                        local.add(node.args.vararg.arg)
+                    if node.args.kwarg:
+                        local.add(node.args.kwarg.arg)
+                    for x in ast.walk(node):
+                        if isinstance(x, ast.Name) and isinstance(x.ctx, ast.Store):
+                            local.add(x.id)
+                    self.shadow.append(local)
+                    self.generic_visit(node)
+                    self.shadow.pop()
+                    return node
+
+                visit_FunctionDef = _fn
+                visit_AsyncFunctionDef = _fn
+
+                def visit_Attribute(self, node):
+                    nonlocal n
+                    self.generic_visit(node)
+                    if isinstance(node.value, ast.Name) and isinstance(node.ctx, ast.Load) and (node.value.id, node.attr) in attr_to_name \
+                            and not any(node.value.id in sh for sh in self.shadow[1:]):
+                        new = attr_to_name[(node.value.id, node.attr)]
+                        if not any(new in sh for sh in self.shadow[1:]):
+                            n += 1
+                            return ast.copy_location(ast.Name(id=new, ctx=ast.Load()), node)
+                    return node
+
+                def visit_Name(self, node):
+                    nonlocal n
+                    if isinstance(node.ctx, ast.Load) and node.id in name_to_attr and not any(node.id in sh for sh in self.shadow[1:]):
+                        m_, a_ = name_to_attr[node.id]
+                        n += 1
+                        return ast.copy_location(ast.Attribute(value=ast.Name(id=m_, ctx=ast.Load()), attr=a_, ctx=ast.Load()), node)
+                    return node
+
+            for i, st in enumerate(tree.body):
+                if not isinstance(st, (ast.Import, ast.ImportFrom)):
+                    tree.body[i] = T().visit(st)
+            ast.fix_missing_locations(tree)
+            # the import table seen by later passes (and by the rules) follows the audited spelling
+            extra = []
+            for (a, last), loc in attr_to_name.items():
+                if self.imports[mod].get(loc) != want[loc]:
+                    self.imports[mod][loc] = want[loc]
+                    base_, _, last_ = want[loc].rpartition(".")
+                    extra.append(ast.ImportFrom(module=base_, names=[ast.alias(name=last_, asname=None if loc == last_ else loc)], level=0))
+            for a, (m_, a_) in name_to_attr.items():
+                if m_ not in self.imports[mod]:
+                    self.imports[mod][m_] = want[m_]
+                    extra.append(ast.Import(names=[ast.alias(name=want[m_], asname=None if m_ == want[m_] else m_)]))
+            if extra:
+                pos = max([i for i, st in enumerate(tree.body) if isinstance(st, (ast.Import, ast.ImportFrom))] or [-1]) + 1
+                tree.body[pos:pos] = extra
+                ast.fix_missing_locations(tree)
+        return n
+
+    def canonical_forms(self, focus=None):
+        """statement-level canonical forms (each rewrite is an exact equivalence):
+        `t = A if c else B` -> if c: t = A / else: t = B;  a walrus that is the first thing its statement evaluates -> an assignment in front of it;
+        adjacent `except X: BODY` / `except Y: BODY` with identical bodies and no binding -> `except (X, Y): BODY`."""
+        n = 0
+
+        def simple(e):
+            return isinstance(e, (ast.Name, ast.Constant)) or (isinstance(e, ast.Attribute) and simple(e.value))
+
+        def rewrite_list(stmts):
+            nonlocal n
+            out = []
+            for st in stmts:
+                # walrus first
+                host = None
+                if isinstance(st, (ast.If,)):
+                    host = st.test
+                elif isinstance(st, (ast.Expr, ast.Return)) and st.value is not None:
+                    host = st.value
+                elif isinstance(st, ast.Assign):
+                    host = st.value
+                guard = 0
+                while host is not None and guard < 4:
+                    guard += 1
+                    order = _first_evaluated(host)
+                    w = next((e for e in order if isinstance(e, ast.NamedExpr)), None)
+                    if w is None or not isinstance(w.target, ast.Name):
+                        break
+                    inside = {id(x) for x in ast.walk(w)}
+                    before = order[: order.index(w)]
+                    if not all(id(e) in inside or simple(e) for e in before):
+                        break
+                    asg = ast.copy_location(ast.Assign(targets=[ast.Name(id=w.target.id, ctx=ast.Store())], value=w.value, type_comment=None), st)
+                    out.append(asg)
+                    newhost = _replace_node(host, w, ast.copy_location(ast.Name(id=w.target.id, ctx=ast.Load()), w))
+                    if isinstance(st, ast.If):
+                        st.test = newhost
+                    else:
+                        st.value = newhost
+                    host = newhost
+                    n += 1
+                if isinstance(st, ast.Assign) and isinstance(st.value, ast.IfExp) and len(st.targets) == 1 and isinstance(st.targets[0], (ast.Name, ast.Attribute)) \
+                        and (isinstance(st.targets[0], ast.Name) or simple(st.targets[0].value)):
+                    ie = st.value
+                    a = ast.copy_location(ast.Assign(targets=[copy.deepcopy(st.targets[0])], value=ie.body, type_comment=None), st)
+                    b = ast.copy_location(ast.Assign(targets=[copy.deepcopy(st.targets[0])], value=ie.orelse, type_comment=None), st)
+                    new = ast.copy_location(ast.If(test=ie.test, body=rewrite_list([a]), orelse=rewrite_list([b])), st)
+                    out.append(new)
+                    n += 1
+                    continue
+                out.append(st)
+            return out
+
+        def takewhile(node):
+            """for T in itertools.takewhile(lambda p: COND, IT): BODY  ->  for T in IT: if not COND[p:=T]: break; BODY"""
+            nonlocal n
+            it = node.iter
+            if not (isinstance(node, ast.For) and isinstance(it, ast.Call) and (dotted_name(it.func) in ("itertools.takewhile", "takewhile")) and len(it.args) == 2 and not it.keywords
+                    and isinstance(it.args[0], ast.Lambda) and len(it.args[0].args.args) == 1 and not node.orelse and isinstance(node.target, ast.Name)):
+                return
+            lam = it.args[0]
+            p = lam.args.args[0].arg
+            cond = copy.deepcopy(lam.body)
+            for x in ast.walk(cond):
+                if isinstance(x, ast.Name) and x.id == p:
+                    x.id = node.target.id
+            test = cond.operand if isinstance(cond, ast.UnaryOp) and isinstance(cond.op, ast.Not) else ast.UnaryOp(op=ast.Not(), operand=cond)
+            brk = ast.copy_location(ast.If(test=test, body=[ast.copy_location(ast.Break(), node)], orelse=[]), node)
+            node.iter = it.args[1]
+            node.body = [brk] + node.body
+            n += 1
+
+        def visit(node):
+            nonlocal n
+            if isinstance(node, ast.For):
+                takewhile(node)
+            for field in ("body", "orelse", "finalbody"):
+                v = getattr(node, field, None)
+                if isinstance(v, list) and v and isinstance(v[0], ast.stmt):
+                    for ch in v:
+                        visit(ch)
+                    setattr(node, field, rewrite_list(v))
+            if isinstance(node, ast.Try):
+                merged = []
+                for h in node.handlers:
+                    visit(h)
+                    if merged and h.name is None and merged[-1].name is None and h.type is not None and merged[-1].type is not None \
+                            and [ast.dump(x) for x in h.body] == [ast.dump(x) for x in merged[-1].body]:
+                        prev = merged[-1]
+                        elts = (list(prev.type.elts) if isinstance(prev.type, ast.Tuple) else [prev.type]) + (list(h.type.elts) if isinstance(h.type, ast.Tuple) else [h.type])
+                        prev.type = ast.copy_location(ast.Tuple(elts=elts, ctx=ast.Load()), prev.type)
+                        n += 1
+                        continue
+                    merged.append(h)
+                node.handlers = merged
+            elif isinstance(node, ast.ClassDef):
+                pass
+
+        class Fmt(ast.NodeTransformer):
+            """'…{!r}…'.format(a, b) with a constant template and plain fields -> the f-string with the same pieces"""
+
+            def visit_Call(self, node):
+                nonlocal n
+                self.generic_visit(node)
+                f = node.func
+                if not (isinstance(f, ast.Attribute) and f.attr == "format" and isinstance(f.value, ast.Constant) and isinstance(f.value.value, str)):
+                    return node
+                js = format_to_joined(f.value.value, node.args, node.keywords)
+                if js is None:
+                    return node
+                n += 1
+                return ast.copy_location(js, node)
+
+        def enumerate_loops(tree):
+            """for i, x in enumerate(IT[, S]): BODY  ->  i = S; for x in IT: BODY; i += 1   when BODY has no `continue` of this loop and i is read only inside it"""
+            nonlocal n
+            for fn in [f for f in ast.walk(tree) if isinstance(f, FuncT)]:
+                for node in list(_own_walk(fn)):
+                    if not (isinstance(node, ast.For) and isinstance(node.iter, ast.Call) and isinstance(node.iter.func, ast.Name) and node.iter.func.id == "enumerate"
+                            and 1 <= len(node.iter.args) <= 2 and all(k.arg == "start" for k in node.iter.keywords)
+                            and isinstance(node.target, ast.Tuple) and len(node.target.elts) == 2 and isinstance(node.target.elts[0], ast.Name) and not node.orelse):
+                        continue
+                    idx = node.target.elts[0].id
+                    start = node.iter.args[1] if len(node.iter.args) == 2 else next((k.value for k in node.iter.keywords), ast.Constant(value=0))
+                    if not isinstance(start, ast.Constant):
+                        continue
+
+                    def has_continue(stmts):
+                        for st in stmts:
+                            if isinstance(st, ast.Continue):
+                                return True
+                            if isinstance(st, (ast.For, ast.AsyncFor, ast.While) + FuncT + (ast.ClassDef,)):
+                                if isinstance(st, (ast.For, ast.AsyncFor, ast.While)) and has_continue(st.orelse):
+                                    return True
+                                continue
+                            for field in ("body", "orelse", "finalbody"):
+                                if has_continue(getattr(st, field, []) or []):
+                                    return True
+                            if isinstance(st, ast.Try) and any(has_continue(h.body) for h in st.handlers):
+                                return True
+                        return False
+
+                    if has_continue(node.body):
+                        continue
+                    inside = {id(x) for x in ast.walk(node)}
+                    if any(isinstance(x, ast.Name) and x.id == idx and id(x) not in inside for x in ast.walk(fn)):
+                        continue
+                    if any(isinstance(x, ast.Name) and x.id == idx and isinstance(x.ctx, ast.Store) and x is not node.target.elts[0] for x in ast.walk(node)):
+                        continue
+                    parent = _parent_in(fn, node)
+                    if parent is None:
+                        continue
+                    for field in ("body", "orelse", "finalbody"):
+                        lst = getattr(parent, field, None)
+                        if isinstance(lst, list) and node in lst:
+                            i = lst.index(node)
+                            init = ast.copy_location(ast.Assign(targets=[ast.Name(id=idx, ctx=ast.Store())], value=copy.deepcopy(start), type_comment=None), node)
+                            node.target = node.target.elts[1]
+                            node.iter = node.iter.args[0]
+                            node.body.append(ast.copy_location(ast.AugAssign(target=ast.Name(id=idx, ctx=ast.Store()), op=ast.Add(), value=ast.Constant(value=1)), node))
+                            lst.insert(i, init)
+                            n += 1
+                            break
+
+        for mod, tree in self.trees.items():
+            if focus is not None and mod not in focus:
+                continue
+            before = n
+            visit(tree)
+            enumerate_loops(tree)
+            Fmt().visit(tree)
+            if n != before:
+                ast.fix_missing_locations(tree)
+        return n
+
     def propagate_all(self, focus=None):
         """N1 for every (focused) module"""
         for mod, tree in self.trees.items():
@@ -2143,11 +2756,16 @@ class ProgramNormalizer:
     def run(self):
         focus = self.focus
         if focus is None:
+            self.flatten_new_bases()
+            self.closures_from_callable_classes()
             self.rename_back()
+        self.rename_imports_back(focus)
         self.propagate_all(focus)
         self.split_with_items(focus)
+        self.canonical_forms(focus)
         self.rename_locals_back(only=focus)
         self.fold_new_temporaries(only=focus)
+        self.canonical_forms(focus)
         if not self.known:
             return self.stats
         # names of new helpers; functions that mention none of them (and define no new closure) need no rewriting
@@ -2216,6 +2834,8 @@ class ProgramNormalizer:
             self._drop_orphans()
         self.scalarize_records(only=focus)
         self.fold_new_temporaries(only=focus)
+        if total:
+            self.canonical_forms(focus)
         return self.stats
 
     def _all_defs(self, tree):
@@ -2279,6 +2899,64 @@ class ProgramNormalizer:
                                 st.body.remove(sub)
                     if not st.body:
                         st.body.append(ast.Pass())
+
+
+def format_to_joined(template: str, args, keywords):
+    """the JoinedStr equivalent to ``template.format(*args, **keywords)`` (plain fields only, every argument evaluated once and in order - or all
+    arguments are plain names), else None"""
+    import string as _string
+
+    def simple(e):
+        return isinstance(e, (ast.Name, ast.Constant)) or (isinstance(e, ast.Attribute) and simple(e.value))
+
+    if any(isinstance(a, ast.Starred) for a in args) or any(k.arg is None for k in keywords):
+        return None
+    try:
+        parts = list(_string.Formatter().parse(template))
+    except ValueError:
+        return None
+    kws = {k.arg: k.value for k in keywords}
+    values, auto, used = [], 0, []
+    for lit, field, spec, conv in parts:
+        if lit:
+            values.append(ast.Constant(value=lit))
+        if field is None:
+            continue
+        if spec and ("{" in spec):
+            return None
+        if field == "":
+            idx = auto
+            auto += 1
+            if idx >= len(args):
+                return None
+            val = args[idx]
+            used.append(idx)
+        elif field.isdigit():
+            if int(field) >= len(args):
+                return None
+            val = args[int(field)]
+            used.append(int(field))
+        elif field in kws:
+            val = kws[field]
+            used.append(field)
+        else:
+            return None
+        values.append(ast.FormattedValue(value=val, conversion={"r": 114, "s": 115, "a": 97}.get(conv, -1),
+                                         format_spec=ast.JoinedStr(values=[ast.Constant(value=spec)]) if spec else None))
+    args_simple = all(simple(a) for a in args) and all(simple(v) for v in kws.values())
+    in_order = used == list(range(len(args))) + list(kws)
+    if not (args_simple or in_order):
+        return None
+    return ast.JoinedStr(values=values)
+
+
+def dotted_name(e) -> str:
+    if isinstance(e, ast.Name):
+        return e.id
+    if isinstance(e, ast.Attribute):
+        b = dotted_name(e.value)
+        return f"{b}.{e.attr}" if b else ""
+    return ""
 
 
 def _first_evaluated(expr):
